@@ -21,7 +21,7 @@ Grammar (EBNF; everything else in a source file is skipped at item level with ba
             | lvalue ('=' | '+=' | '-=' | '*=' | '/=') expr ';'
             | 'for' pat 'in' expr0 ('..' expr0)? block
             | 'while' expr0 block | 'loop' block          -- left with `break` (no value, no label) / `return`
-            | 'use' path ('::' '*')? ';'                  -- inside a block: `use E::*;` brings the variants of the enum E into scope
+            | 'use' path ('::' '*' | '::' '{' IDENT,* '}')? ';'   -- inside a block: `use E::*;` / `use E::{A, B};` bring variants of the enum E into scope
             | 'return' expr? ';'
             | ifexpr | matchexpr | expr ';'
   pat      := alt ('|' alt)*
@@ -34,9 +34,9 @@ Grammar (EBNF; everything else in a source file is skipped at item level with ba
   shift    := add (('<<'|'>>') add)*         add   := mul (('+'|'-') mul)*  mul  := cast (('*'|'/'|'%') cast)*
   cast     := unary ('as' type)*
   unary    := ('-' | '!' | '&' 'mut'? | '*') unary | postfix       -- `let r = &mut v[i];` makes r an alias of the place v[i]
-  postfix  := primary ( '.' IDENT ('::' '<' ... '>')? ('(' expr,* ')')? | '.' INT | '[' expr ']' | '(' expr,* ')' | '?' )*
+  postfix  := primary ( '.' IDENT ('::' '<' ... '>')? ('(' expr,* ')')? | '.' INT | '[' expr ('..' expr)? ']' | '(' expr,* ')' | '?' )*
   primary  := INT | FLOAT | STRING | CHAR | 'true' | 'false' | path | path '{' (IDENT (':' expr)?),* ('..' expr)? '}'     -- not in expr0
-            | '(' expr,* ')' | '[' expr,* ']' | block | ifexpr | matchexpr | IDENT '!' ( '(' ... ')' | '[' expr,* ']' )
+            | '(' expr,* ')' | '[' expr,* ']' | '[' expr ';' INT ']' | block | ifexpr | matchexpr | IDENT '!' ( '(' ... ')' | '[' expr,* ']' )
             | 'return' expr? | 'break' | 'continue' | 'move'? '|' pat,* '|' expr
   ifexpr   := 'if' ('let' pat '=')? expr0 block ('else' (ifexpr | block))?
   matchexpr:= 'match' expr0 '{' ( pat ('if' expr)? '=>' (expr ',' | block ','?) )* '}'
@@ -327,6 +327,8 @@ class Parser:
                 self.parse_enum(out)
             elif self.at("impl"):
                 self.parse_impl(out)
+            elif self.at("trait") and self.peek(1).kind == "ident":
+                self.parse_trait(out)
             elif self.at("fn"):
                 f = self.parse_fn(None)
                 out["fns"].setdefault(f.name, f)
@@ -518,6 +520,35 @@ class Parser:
             # kept in "allfns" (overloaded operator impls: `impl Mul<Int> for T` and `impl Mul<usize> for T`)
             out["fns"].setdefault(f.name, f)
             out["allfns"].append(f)
+
+    def parse_trait(self, out):
+        """`trait T { fn .. }`: its methods (required ones have no body, provided ones have one) are recorded like those of
+        `impl T`: `Self` is the (abstract) type T"""
+        self.eat("trait")
+        name = self.ident()
+        self.skip_generics()
+        while not self.at("{"):
+            if self.peek().kind == "eof":
+                self.err("unterminated trait")
+            self.i += 1
+        self.eat("{")
+        t1 = ("named", name)
+        fns = []
+        while not self.at("}"):
+            self.skip_attrs_vis()
+            if self.at("fn"):
+                f = self.parse_fn(t1)
+                f.trait, f.impl_generics, f.assoc = None, [], {}
+                f.in_trait = name
+                fns.append(f)
+            elif self.at("}"):
+                break
+            else:
+                self.skip_item()
+        self.eat("}")
+        # kept apart from the items of impls: a unit asks for them ("traits": True)
+        out.setdefault("traits", {})[name] = [f.short for f in fns]
+        out.setdefault("traitfns", []).extend(fns)
 
     def parse_fn(self, self_ty):
         line = self.eat("fn").line
@@ -815,7 +846,21 @@ class Parser:
                     glob = True
                     break
                 if self.at("{"):
-                    self.err("`use a::{..}` inside a block is outside the subset")
+                    # `use E::{A, B, ..};`: the listed variants of the enum E may be written bare
+                    self.i += 1
+                    names = []
+                    while not self.at("}"):
+                        if self.at("self"):
+                            self.i += 1
+                        else:
+                            names.append(self.ident())
+                        if self.accept("::") or self.at("{") or self.at("as"):
+                            self.err("nested / renamed `use` lists inside a block are outside the subset")
+                        if not self.accept(","):
+                            break
+                    self.eat("}")
+                    self.eat(";")
+                    return N("use", t.line, segs=segs, glob=False, names=names)
                 if self.peek().kind != "ident":
                     self.err("expected a path after `use`")
                 segs.append(self.peek().val); self.i += 1
@@ -1012,6 +1057,11 @@ class Parser:
             elif self.at("["):
                 self.i += 1
                 idx = self.parse_expr()
+                if self.at(".."):
+                    # `v[lo..hi]`: a sub-slice
+                    self.i += 1
+                    hi = self.parse_expr()
+                    idx = N("range", t.line, lo=idx, hi=hi)
                 self.eat("]")
                 e = N("index", t.line, e=e, idx=idx)
             elif self.at("(") and e.kind == "path":
@@ -1055,8 +1105,12 @@ class Parser:
             es = []
             while not self.at("]"):
                 es.append(self.parse_expr())
+                if self.at(";") and len(es) == 1 and self.peek(1).kind == "int" and self.at("]", 2):
+                    n = self.peek(1).val
+                    self.i += 3
+                    return N("repeat", t.line, e=es[0], n=n)       # `[x; N]` with a literal N
                 if self.at(";"):
-                    self.err("`[x; n]` is outside the subset")
+                    self.err("`[x; n]` with a length that is not a literal is outside the subset")
                 if not self.accept(","):
                     break
             self.eat("]")
